@@ -129,7 +129,12 @@ WBytes(io) == LET RECURSIVE S(_)
               IN S(Len(io))
 StreamPos(w) == w[1] * FileSize + w[2]
 BytesViol(r, c) ==
-  IF r.res.k # "ok" \/ c.cur.op \in {"restart", "persist", "none"} THEN {}
+  IF c.cur.op \in {"restart", "persist", "none"} THEN {}
+  ELSE IF r.res.k \in {"missing", "exists", "past"} THEN
+     \* a rejected call reports no byte count: the running sum tracks the cursor only if it wrote nothing
+     (IF WBytes(r.io) # 0 \/ ("st" \in DOMAIN r /\ c.hasPrev /\ c.crashfree /\ StreamPos(r.st.w) # StreamPos(c.prevW))
+      THEN {"a call that returned an error (no byte count) wrote to the WAL: the sum of reported bytes no longer tracks the cursor"} ELSE {})
+  ELSE IF r.res.k # "ok" THEN {}
   ELSE  (IF r.res.wal # WBytes(r.io) THEN {"wal_bytes_written differs from bytes written"} ELSE {})
    \cup (IF "st" \in DOMAIN r /\ c.hasPrev /\ c.crashfree /\ StreamPos(r.st.w) - StreamPos(c.prevW) # r.res.wal
          THEN {"wal_bytes_written differs from cursor advance"} ELSE {})
